@@ -167,7 +167,7 @@ def judgeStatus (r : Ref) (status : String) : V :=
       | some (.optimum w) =>
         if status == "unfeasible" then
           .wrong "status" s!"library unfeasible, but a feasible point with objective {ratStr w} exists"
-        else .partialOk "unbounded-int-var"
+        else .partialOk (if r.tooLarge then "size" else "unbounded-int-var")
       | some .unbounded =>
         if status != "unbounded" then
           .wrong "status" s!"library {status}, but the problem confined to a window is already unbounded"
@@ -238,6 +238,7 @@ def processObs (ln : Nat) (fresh : Bool) (si : Nat) (kind : String) (rest : List
       | "solve", "unbounded" :: "fp" :: pt => (parsePt P.n pt).1
       | "solve", "optimized" :: "val" :: _ :: _ :: "pt" :: pt => (parsePt P.n pt).1
       | "fpoint", pt => (parsePt P.n pt).1
+      | "sat", "1" :: "fp" :: pt => (parsePt P.n pt).1
       | "opoint", pt => (parsePt P.n pt).1
       | _, _ => none
     let upgrade := r0.wf && !r0.mip.isKnown && r0.ray &&
@@ -263,6 +264,7 @@ def processObs (ln : Nat) (fresh : Bool) (si : Nat) (kind : String) (rest : List
             match l with
             | [a, b] => [ratStr (mkRatS a b)]
             | l => l
+          else if kind == "sat" then l.take 1
           else if kind == "fpoint" || kind == "opoint" then
             [if l == ["none"] then "none" else "point"]
           else l
@@ -305,7 +307,15 @@ def processObs (ln : Nat) (fresh : Bool) (si : Nat) (kind : String) (rest : List
           V.and s (V.and wit (V.and ev val))
         | _ => .partialOk "parse"
       else if kind == "sat" then
-        judgeSat r (rest == ["1"])
+        match rest with
+        | "1" :: "fp" :: pt =>
+          (match (parsePt P.n pt).1 with
+           | some x =>
+             -- a valid witness settles satisfiability whatever the reference knows
+             if checkFeasible P x then .good
+             else V.and (.wrong "witness" "feasible_point() after is_satisfiable() violates a constraint or an integrality requirement") (judgeSat r true)
+           | none => V.and (.wrong "witness" "feasible_point() throws although is_satisfiable() said true") (judgeSat r true))
+        | _ => judgeSat r (rest.head? == some "1")
       else if kind == "fpoint" then
         match (parsePt P.n rest).1 with
         | some x =>
